@@ -1,4 +1,5 @@
 import EaselModel.Stats.HistRat
+import EaselModel.Stats.FitReal
 /-! # C11 — property theorems (statements + glue only; lemmas live in `EaselModel/Stats/*`)
 
 Histogram half. `Hist` is the line-by-line model of `esl_histogram.c` (`EaselModel/Stats/Histogram.lean`), run bit-for-bit
@@ -64,5 +65,75 @@ example : ∃ h : Hist ℚ, Hist.create (0 : ℚ) 10 1 = .val (some h) := by
   unfold Hist.create
   simp only [hq, hfin, toInt_intCast]
   exact ⟨_, rfl⟩
+
+/-! ## Fits (the same model definitions read over ℝ)
+
+Full statement of the property for the fits: *every* fitting routine returns a documented failure status or finite
+parameters that maximise its log-likelihood. Proved below: exponential (global maximiser, unique in λ), Gumbel complete /
+censored / fixed-λ (μ exact maximiser for the returned λ; λ stationary for the profile likelihood within the Newton
+tolerance; termination). NOT proved (`partial`): binary64 rounding (L0); global optimality of λ beyond stationarity;
+the conjugate-gradient fits (Weibull, stretched exponential, truncated Gumbel, GEV) and the gamma generalized-Newton fit,
+which are only monitored on the implementation's output. The log-normal `sigma` uses the `n-1` variance (not the ML `n`). -/
+
+/-- `esl_exp_FitComplete` on non-empty data returns eslOK, `mu` = the smallest observation, `lambda = 1/(mean - mu)`. -/
+theorem exp_fit_closed_form (xs : Array ℝ) (hn : 0 < xs.size) :
+    ∃ mu : ℝ, expFitComplete xs = .res .ok #[mu, 1 / ((xs.toList.map (fun x => x - mu)).sum / xs.size)] ∧
+      mu ∈ xs.toList ∧ ∀ x ∈ xs.toList, mu ≤ x :=
+  expFitComplete_eq xs hn
+
+/-- that pair is THE maximiser of the exponential log-likelihood `n log λ - λ Σ(xᵢ-μ)` over all admissible `μ' ≤ min xᵢ`, `λ' > 0`
+    (data with two distinct values: `Σ(xᵢ - min) > 0`); `λ` is the unique maximiser at `μ = min xᵢ`. -/
+theorem exp_fit_is_maximiser (xs : List ℝ) (mu : ℝ) (hmu : ∀ x ∈ xs, mu ≤ x) (hS : 0 < (xs.map (fun x => x - mu)).sum)
+    (hn : 0 < xs.length) (mu' lam' : ℝ) (hmu' : mu' ≤ mu) (hl : 0 < lam') :
+    llExp xs mu' lam' ≤ llExp xs mu (1 / ((xs.map (fun x => x - mu)).sum / xs.length)) ∧
+    (llExp xs mu lam' = llExp xs mu (1 / ((xs.map (fun x => x - mu)).sum / xs.length)) → lam' = 1 / ((xs.map (fun x => x - mu)).sum / xs.length)) :=
+  exp_fit_maximises xs mu hmu hS hn mu' lam' hmu' hl
+
+example : (∀ x ∈ [(1 : ℝ), 3], (1 : ℝ) ≤ x) ∧ 0 < (([(1 : ℝ), 3]).map (fun x => x - 1)).sum := by
+  constructor
+  · intro x hx; simp at hx; rcases hx with rfl | rfl <;> norm_num
+  · norm_num
+
+/-- Gumbel, complete (`z = 0`) or left-censored data: for ANY `λ > 0` the location Lawless 4.1.5/4.2.3 computes is the exact
+    maximiser of the log-likelihood in `μ`. -/
+theorem gumbel_mu_is_maximiser (xs : List ℝ) (z phi lam : ℝ) (hn : 0 < xs.length) (hl : 0 < lam) (hS : 0 < gS xs z phi lam) (mu' : ℝ) :
+    llGumbel xs z phi mu' lam ≤ llGumbel xs z phi (-(Real.log (gS xs z phi lam / xs.length)) / lam) lam :=
+  gumbel_mu_maximises xs z phi lam hn hl hS mu'
+
+example : 0 < gS [(0 : ℝ), 1] 0 0 1 := by
+  unfold gS
+  simp only [List.map_cons, List.map_nil, List.sum_cons, List.sum_nil, zero_mul, add_zero]
+  positivity
+
+/-- `lawless416` / `lawless422` (as coded) IS the derivative in `λ` of the profile log-likelihood, per sample. -/
+theorem lawless_is_derivative (xs : List ℝ) (z phi lam : ℝ) (hn : 0 < xs.length) (hl : 0 < lam) (hS : 0 < gS xs z phi lam) :
+    HasDerivAt (fun l => llGumbelProfile xs z phi l) (xs.length * lawlessF xs z phi lam) lam ∧
+    llGumbelProfile xs z phi lam = llGumbel xs z phi (-(Real.log (gS xs z phi lam / xs.length)) / lam) lam :=
+  ⟨lawless_is_profile_derivative xs z phi lam hn hl hS, llGumbelProfile_eq xs z phi lam hn hl hS⟩
+
+/-- `esl_gumbel_FitComplete` = eslOK ⇒ `|∂profile/∂λ| < n·10⁻⁵` at the returned `λ` and `μ` is the exact `μ`-maximiser for it. -/
+theorem gumbel_complete_fit_stationary (xs : Array ℝ) (mu lam : ℝ) (h : gumbelFitComplete xs = .res .ok #[mu, lam]) :
+    |lawlessF xs.toList 0 0 lam| < (1e-5 : ℝ) ∧ mu = -(Real.log (gS xs.toList 0 0 lam / xs.size)) / lam :=
+  gumbelFitComplete_ok xs mu lam h
+
+/-- the same for `esl_gumbel_FitCensored` (`z` values censored at `phi`). -/
+theorem gumbel_censored_fit_stationary (xs : Array ℝ) (z : Int) (phi mu lam : ℝ) (h : gumbelFitCensored xs z phi = .res .ok #[mu, lam]) :
+    |lawlessF xs.toList z phi lam| < (1e-5 : ℝ) ∧ mu = -(Real.log (gS xs.toList z phi lam / xs.size)) / lam :=
+  gumbelFitCensored_ok xs z phi mu lam h
+
+/-- `esl_gumbel_FitCompleteLoc` / `FitCensoredLoc` return exactly that `μ`-maximiser for the caller's `λ`. -/
+theorem gumbel_loc_fits_closed_form (xs : Array ℝ) (z : Int) (phi lam : ℝ) (hn : 1 < xs.size) :
+    gumbelFitCompleteLoc xs lam = .res .ok #[-(Real.log (gS xs.toList 0 0 lam / xs.size)) / lam] ∧
+    gumbelFitCensoredLoc xs z phi lam = .res .ok #[-(Real.log (gS xs.toList z phi lam / xs.size)) / lam] :=
+  ⟨gumbelFitCompleteLoc_eq xs lam hn, gumbelFitCensoredLoc_eq xs z phi lam hn⟩
+
+/-- termination: Newton (100) and bisection (100) are capped in the code and total in the model; the one uncapped loop
+    (`while (fx > 0.) right *= 2.`) ends within 2200 rounds whenever `right > 0` and `right·2²¹⁹⁹ > 1000` (every positive binary64),
+    and `FitCensored` refuses `right ≤ 0` (commit b44f0f8) — the model's `.hang` outcome is unreachable. -/
+theorem gumbel_fits_terminate (f : ℝ → ℝ × ℝ) (variance : ℝ) (b : Bool)
+    (hr : b = true ∨ 0 < piConst / Num.sqrt ((6.0 : ℝ) * variance))
+    (hbig : 0 < piConst / Num.sqrt ((6.0 : ℝ) * variance) → 1000 < piConst / Num.sqrt ((6.0 : ℝ) * variance) * 2 ^ 2199) :
+    gumbelLambda f variance b ≠ .fault :=
+  gumbelLambda_no_hang f variance b hr hbig
 
 end EaselModel.Props.C11
